@@ -16,6 +16,7 @@ result.json['verdict'] / DESIGN.md 13.8.
 import json, os, shutil, subprocess, sys, time
 pid, wt, *more = sys.argv[1:]
 pids = [pid] + more
+TAG = os.environ.get('BENIGN_TAG', '')      # e.g. 'w2' for the second wave
 V = os.path.dirname(os.path.dirname(os.path.abspath(__file__)))
 
 
@@ -28,9 +29,9 @@ assert sh(f"git -C {wt} diff --quiet -- src").returncode == 0, \
 for n in (1, 2, 3):
     pf = os.path.join(wt, 'ben_out', f'patch{n}.diff')
     if not os.path.exists(pf) or os.path.getsize(pf) == 0:
-        print(f"{pid}_{n} no patch")
+        print(f"{pid}{TAG}_{n} no patch")
         continue
-    out = {'id': f'{pid}_{n}', 'properties_run': pids}
+    out = {'id': f'{pid}{TAG}_{n}', 'properties_run': pids}
     a = sh(f"git -C {wt} apply {pf}")
     out['patch_applies'] = a.returncode == 0
     if a.returncode == 0:
@@ -49,7 +50,7 @@ for n in (1, 2, 3):
         out['checks'] = det
         out['alarms'] = [p for p, d in det.items() if d['exit'] != 0]
         sh(f"git -C {wt} checkout -- src")
-    dst = os.path.join(V, 'benign', f'{pid}_{n}')
+    dst = os.path.join(V, 'benign', f'{pid}{TAG}_{n}')
     os.makedirs(dst, exist_ok=True)
     shutil.copy(pf, os.path.join(dst, 'patch.diff'))
     nf = os.path.join(wt, 'ben_out', 'notes.md')
